@@ -339,6 +339,9 @@ func vfGenDir(rt *rapid.T, files *[]vfFile, rel []string, depth, maxDepth, fan i
 	used := map[string]bool{}
 	for i := 0; i < n; i++ {
 		name := vfGenFsName(rt, "child")
+		if rapid.IntRange(0, 7).Draw(rt, "child_named_like_top") == 0 {
+			name = rel[0] // an entry deep in the tree with the same name as the top-level directory ("proj/proj", "proj/cmd/proj")
+		}
 		if used[name] {
 			continue
 		}
